@@ -137,6 +137,9 @@ def find_multiplicity(knot, knot_vector, **kwargs):
     # Get tolerance value
     tol = kwargs.get('tol', 10e-8)
 
+    # The tolerance is relative to the range of the knot vector (it is the range itself for the normalized knot vectors)
+    tol *= abs(knot_vector[-1] - knot_vector[0])
+
     mult = 0  # initial multiplicity
 
     for kv in knot_vector:
@@ -875,6 +878,7 @@ def knot_refinement(degree, knotvector, ctrlpts, **kwargs):
     """
     # Get keyword arguments
     tol = kwargs.get('tol', 10e-8)  # tolerance value for zero equality checking
+    tol *= abs(knotvector[-1] - knotvector[0])  # knot differences are compared: relative to the range of the knot vector
     check_num = kwargs.get('check_num', True)  # enables/disables input validity checking
     knot_list = kwargs.get('knot_list', knotvector[degree:-degree])
     add_knot_list = kwargs.get('add_knot_list', list())
